@@ -118,10 +118,16 @@ fn compile_native_asset_for_mint(
     let amount = coercion::expr_into_number(&ir.amount)?;
 
     let amount = if !is_burn {
-        primitives::NonZeroInt::try_from(amount as i64).unwrap()
+        amount
     } else {
-        primitives::NonZeroInt::try_from(-amount as i64).unwrap()
+        amount
+            .checked_neg()
+            .ok_or_else(|| Error::CoerceError(amount.to_string(), "burn amount".to_string()))?
     };
+
+    let amount = coercion::number_into_i64(amount, "mint amount")?;
+    let amount = primitives::NonZeroInt::try_from(amount)
+        .map_err(|_| Error::CoerceError(amount.to_string(), "NonZeroInt".to_string()))?;
 
     let asset = asset!(policy, asset_name.clone(), amount);
 
@@ -383,7 +389,7 @@ pub fn compile_withdrawal_directive(
         .get("amount")
         .ok_or(Error::MissingExpression("withdrawal amount".to_string()))?;
     let amount = coercion::expr_into_number(amount)?;
-    let amount = primitives::Coin::try_from(amount as u64).unwrap();
+    let amount = coercion::number_into_u64(amount, "withdrawal amount")?;
 
     Ok((credential, amount))
 }
@@ -478,13 +484,15 @@ fn compile_validity(validity: Option<&tir::Validity>) -> Result<(Option<u64>, Op
         .and_then(|v| v.since.as_option())
         .map(coercion::expr_into_number)
         .transpose()?
-        .map(|n| n as u64);
+        .map(|n| coercion::number_into_u64(n, "slot"))
+        .transpose()?;
 
     let until = validity
         .and_then(|v| v.until.as_option())
         .map(coercion::expr_into_number)
         .transpose()?
-        .map(|n| n as u64);
+        .map(|n| coercion::number_into_u64(n, "slot"))
+        .transpose()?;
 
     Ok((since, until))
 }
@@ -496,8 +504,10 @@ fn compile_donation(tx: &tir::Tx) -> Result<Option<pallas::codec::utils::Positiv
         .and_then(|donation| donation.data.get("coin"))
         .map(coercion::expr_into_number)
         .transpose()?
+        .map(|amount| coercion::number_into_u64(amount, "donation amount"))
+        .transpose()?
         .map(|amount| {
-            pallas::codec::utils::PositiveCoin::try_from(amount as u64).map_err(|_| {
+            pallas::codec::utils::PositiveCoin::try_from(amount).map_err(|_| {
                 Error::CoerceError(
                     format!("Invalid donation amount: {}", amount),
                     "PositiveCoin".to_string(),
@@ -516,7 +526,7 @@ fn compile_tx_body(
     let out = primitives::TransactionBody {
         inputs: compile_inputs(tx)?.into(),
         outputs: compile_outputs(tx, network)?,
-        fee: coercion::expr_into_number(&tx.fees)? as u64,
+        fee: coercion::number_into_u64(coercion::expr_into_number(&tx.fees)?, "fee")?,
         certificates: primitives::NonEmptySet::from_vec(compile_certs(tx, network)?),
         mint: compile_mint_block(tx)?,
         reference_inputs: primitives::NonEmptySet::from_vec(compile_reference_inputs(tx)?),
@@ -545,7 +555,7 @@ fn compile_auxiliary_data(tx: &tir::Tx) -> Result<Option<primitives::AuxiliaryDa
         .metadata
         .into_iter()
         .map(|x| {
-            let key = expr_into_number(&x.key)? as u64;
+            let key = coercion::number_into_u64(expr_into_number(&x.key)?, "metadata key")?;
             let value = expr_into_metadatum(&x.value)?;
             Ok((key, value))
         })
